@@ -629,3 +629,24 @@ func parseEarlyWrong(data []byte, present bool) *fieldHdr {
 
 // UseParseEarly keeps the function reachable.
 func UseParseEarly(data []byte) *fieldHdr { return parseEarlyWrong(data, true) }
+
+// S-WHOLE: Size() counts every entry, EncodeSW walks a clamped prefix.
+type refList struct {
+	Refs []uint32
+}
+
+func (b *refList) Size() uint64 { return 8 + 4*uint64(len(b.Refs)) }
+
+func (b *refList) EncodeSW(out *[]byte) error {
+	n := len(b.Refs)
+	if n > 0xffff {
+		n = 0xffff
+	}
+	for _, x := range b.Refs[:n] {
+		*out = append(*out, byte(x))
+	}
+	return nil
+}
+
+// UseRefList keeps the methods reachable.
+func UseRefList(b *refList, out *[]byte) uint64 { _ = b.EncodeSW(out); return b.Size() }
